@@ -561,3 +561,24 @@ def check_seeded_derivation(ctx, P, rule="E5.seeded"):
         ctx.ob(rule + ".field-random", f.key, False, "backend-specific sampling Field::random is reachable from a seed-deterministic derivation (%s): the two backends would derive different values from the same seed" % ", ".join(k for k in fns if P.fns.get(k) is not None and f.key in reachable_fns(P, [P.fns[k]])), where=where(f, bb))
     ctx.ob(rule + ".field-random", "deterministic-closure", not bad, "no Field::random call among the %d functions reachable from the seed-deterministic derivations (%d Field::random call sites elsewhere: ephemeral values)" % (len(det), n))
     ctx.floor(rule + ".field-random", "Field::random call sites seen by the rule (detector is live)", n, 1)
+
+
+def hash_to_scalar_calls(P, fn, depth=2):
+    """hash_to_scalar call terms of fn, including those in the crate helpers its values pass through (looked through
+    with local_inliner): [(message term, salt term)] without duplicates."""
+    from . import guardrules as R
+
+    ev = evaluate(fn)
+    roots = [ev.ret] + [fl for _, _, fl in R.ctoption_sites(P, fn)] + [a for x in ev.sites.values() for a in x.args]
+    seen = set()
+    out = []
+    for rt in roots:
+        for c in subterms(inline(P, rt, depth, only=local_inliner(P))):
+            if c.op != "call" or B.cname(c) != "HashToScalar::hash_to_scalar" or len(c.a[1]) != 2:
+                continue
+            key = strip_sites(c)
+            if key in seen:
+                continue
+            seen.add(key)
+            out.append((c.a[1][0], c.a[1][1]))
+    return out
